@@ -163,6 +163,48 @@ CHECKS.update({
         "DESIGN.md section 3, C05"),
 })
 
+CHECKS.update({
+    "C10": (
+        "model_checking",
+        "exhaustive enumeration of anchor-decorated document pairs x anchor "
+        "policies against an alias-class model + dump/strict-reload",
+        "All pairs of documents defining and aliasing scalar anchors from "
+        "{A, B} (aliases under map keys and inside lists; equal-name/equal-"
+        "value, equal-name/different-value, disjoint; a pre-existing A_1) x "
+        "{stop, left, right, rename} x 4 merge-policy vectors: data equal to "
+        "the reference merge after the policy's substitution, one value per "
+        "anchor name, stop refuses and leaves L unchanged, the dump strictly "
+        "reloads to the same data.",
+        "scalar anchors only; merged data judged by the C05 reference merge",
+        "DESIGN.md section 3, C10"),
+    "C11": (
+        "model_checking",
+        "exhaustive product exploration left documents x target paths x "
+        "right documents x policies; frame + per-target reference merge",
+        "Every left document x every target path (each position; multi-match "
+        "wildcard/search/traversal paths; missing creatable; not creatable) x "
+        "6 right documents of every root type x 6 policy vectors: the result "
+        "equals the left document with exactly the matched subtrees replaced "
+        "by the reference merge (or the created path), and impossible targets "
+        "are refused.",
+        "targets come from the C01 reference evaluator, per-target results "
+        "from the C05 reference merge; null targets and creation through "
+        "list pass-through are left open",
+        "DESIGN.md section 3, C11"),
+    "C18": (
+        "model_checking",
+        "exhaustive enumeration of stream pairs x modes; each pairwise "
+        "transition judged by the reference merge, under a watchdog",
+        "All pairs of document streams of lengths 1..n over a 6-document "
+        "pool (incl. an empty document, a list document and a type clash) x "
+        "{condense_all, merge_across, matrix_merge} x 2 policy vectors, the "
+        "right stream read from a real multi-document file: count, order and "
+        "content of the outputs equal the mode's fold of the reference merge "
+        "and the return state is non-zero exactly when a step is impossible.",
+        "pairwise steps judged by the C05 reference merge",
+        "DESIGN.md section 3, C18"),
+})
+
 NOT_YET = {
 }
 
